@@ -1755,6 +1755,260 @@ theorem history_eq_fresh_total (E : Ext α) (hc : 0 < E.c) (t : Cls) (hok : tabl
 
 end Constructible
 
+section Deepen
+variable {α : Type} [Field α] [LinearOrder α] [IsStrictOrderedRing α]
+
+/-! ## proof-deepening pass -/
+
+/-- the tiling does not depend on how the segment count was obtained: for ANY count `n ≥ 0` and any `L > 0` the
+segments start at 0, are adjacent, end at `L`, have equal positive height and radius `r` -/
+theorem segments_tile_any_count (n : Int) (hn : 0 ≤ n) (r L : α) (hL : 0 < L) :
+    ∃ segs, segments n r L = some segs ∧ segs.length = max 1 n.toNat ∧
+      (∀ h : 0 < segs.length, segs[0].z0 = 0) ∧
+      (∀ i (h : i + 1 < segs.length), segs[i + 1].z0 = segs[i].z0 + segs[i].height) ∧
+      (∀ h : segs.length - 1 < segs.length, segs[segs.length - 1].z0 + segs[segs.length - 1].height = L) ∧
+      (∀ i (h : i < segs.length), segs[i].height = L / (segs.length : α) ∧ 0 < segs[i].height ∧ segs[i].radius = r) := by
+  obtain ⟨segs, hs, hlen, hform⟩ := segments_closed_form n hn r L
+  have hpos : 0 < segs.length := by rw [hlen]; omega
+  have hposα : (0 : α) < (segs.length : α) := by exact_mod_cast hpos
+  refine ⟨segs, hs, hlen, ?_, ?_, ?_, ?_⟩
+  · intro h; rw [(hform 0 h).1]; simp
+  · intro i h
+    rw [(hform (i + 1) h).1, (hform i (by omega)).1, (hform i (by omega)).2.1]
+    push_cast; ring
+  · intro h
+    rw [(hform _ h).1, (hform _ h).2.1]
+    have : ((segs.length - 1 : Nat) : α) = (segs.length : α) - 1 := by
+      rw [Nat.cast_sub (by omega)]; simp
+    rw [this]; field_simp; ring
+  · intro i h
+    refine ⟨(hform i h).2.1, ?_, (hform i h).2.2⟩
+    rw [(hform i h).2.1]; positivity
+
+example : ∃ segs, segments 7 (1 : ℚ) 3 = some segs ∧ segs.length = 7 := by
+  obtain ⟨segs, h, hl, _⟩ := segments_tile_any_count (7 : Int) (by decide) (1 : ℚ) 3 (by norm_num)
+  exact ⟨segs, h, by simpa using hl⟩
+
+/-! ### what the scattering model reads: `power_mv[i] = psd[i]·Δλ`, one entry per bin -/
+
+theorem powerList_length (f : α → α → α) (lo hi : α) (n : Nat) : (powerList f lo hi n).length = n := by
+  simp [powerList, psdList, bins_length]
+
+/-- **per-bin power = power spectral density × bin width**, for every bin density function and every bin -/
+theorem power_is_psd_times_delta (f : α → α → α) (lo hi : α) (n i : Nat) (h : i < (powerList f lo hi n).length)
+    (h' : i < (psdList f lo hi n).length) :
+    (powerList f lo hi n)[i] = (psdList f lo hi n)[i] * delta lo hi n := by
+  simp [powerList]
+
+/-- the scattered signal the model accumulates, `Σ_bins c(λ_bin)·power_bin` (c = any per-wavelength response) -/
+def scattered (c : α → α) (wl pw : List α) : α := sumList ((wl.zip pw).map fun x => c x.1 * x.2)
+
+theorem sumList_map_const_mul (c0 : α) (xs : List α) : sumList (xs.map fun x => c0 * x) = c0 * sumList xs := by
+  induction xs with
+  | nil => simp [sumList]
+  | cons x xs ih =>
+    simp only [List.map_cons, sumList, List.foldr_cons] at ih ⊢
+    rw [ih]; ring
+
+/-- when every bin scatters alike the model sees exactly the total power (the round-4 "degenerate range" oracle) -/
+theorem scattered_flat_response (c0 : α) (wl pw : List α) (hlen : wl.length = pw.length) :
+    scattered (fun _ => c0) wl pw = c0 * sumList pw := by
+  unfold scattered
+  have : (wl.zip pw).map (fun x => c0 * x.2) = pw.map fun x => c0 * x := by
+    apply List.ext_getElem
+    · simp [hlen]
+    · intro i h1 h2; simp
+  rw [this, sumList_map_const_mul]
+
+/-- … hence a constant spectrum on its support, and a Gaussian line with `erf` of the two range ends ±1, hand the
+scattering model total power one through any flat response -/
+theorem scattered_constant_total (c0 lo hi : α) (n : Nat) (hn : 0 < n) (hlt : lo < hi) :
+    scattered (fun _ => c0) (wavelengths lo hi n) (powerList (trapezoidPsd (constEval lo hi)) lo hi n) = c0 := by
+  rw [scattered_flat_response _ _ _ (by simp [wavelengths, powerList_length]), const_total_power_one lo hi n hn hlt, mul_one]
+
+theorem scattered_gauss_total (erf : α → α) (c0 mean k lo hi : α) (n : Nat) (hn : 0 < n) (hlt : lo < hi)
+    (hhi : erf ((hi - mean) * k) = 1) (hlo : erf ((lo - mean) * k) = -1) :
+    scattered (fun _ => c0) (wavelengths lo hi n) (powerList (gaussBinPsd erf mean k (delta lo hi n)) lo hi n) = c0 := by
+  rw [scattered_flat_response _ _ _ (by simp [wavelengths, powerList_length]),
+    spectrum_bins_telescope erf mean k lo hi n hn hlt, hhi, hlo]
+  norm_num
+
+/-- Gaussian bin powers are non-negative and sum to at most one, for any monotone `erf` bounded by 1 -/
+theorem gauss_bin_power_nonneg (erf : α → α) (hmono : Monotone erf) (mean k lo hi : α) (hk : 0 ≤ k) (n i : Nat)
+    (hn : 0 < n) (hlt : lo < hi) (h : i < (powerList (gaussBinPsd erf mean k (delta lo hi n)) lo hi n).length)
+    (h' : i < (bins lo hi n).length) :
+    0 ≤ (powerList (gaussBinPsd erf mean k (delta lo hi n)) lo hi n)[i] := by
+  rw [gauss_bin_power_is_cdf_increment erf mean k lo hi n i hn hlt h h', bins_closed_form lo hi n i h']
+  have hnα : (0 : α) < (n : α) := by exact_mod_cast hn
+  have hd : 0 < delta lo hi n := by
+    unfold delta
+    have : 0 < hi - lo := by linarith
+    positivity
+  have : erf ((lo + (i : α) * delta lo hi n - mean) * k) ≤ erf ((lo + ((i : α) + 1) * delta lo hi n - mean) * k) := by
+    apply hmono
+    apply mul_le_mul_of_nonneg_right _ hk
+    nlinarith
+  simp only
+  norm_num
+  linarith
+
+theorem gauss_total_power_le_one (erf : α → α) (hb : ∀ x, |erf x| ≤ 1) (mean k lo hi : α) (n : Nat) (hn : 0 < n)
+    (hlt : lo < hi) : sumList (powerList (gaussBinPsd erf mean k (delta lo hi n)) lo hi n) ≤ 1 := by
+  rw [spectrum_bins_telescope erf mean k lo hi n hn hlt]
+  have h1 := abs_le.mp (hb ((hi - mean) * k))
+  have h2 := abs_le.mp (hb ((lo - mean) * k))
+  norm_num
+  linarith
+
+-- non-vacuity: erf := clamp to [-1, 1] is monotone and bounded
+example : sumList (powerList (gaussBinPsd (fun x : ℚ => max (-1) (min 1 x)) 2 1 (delta 1 3 4)) 1 3 4) ≤ 1 :=
+  gauss_total_power_le_one _ (fun x => by
+    rw [abs_le]; constructor
+    · exact le_max_left _ _
+    · exact max_le (by norm_num) (min_le_left _ _)) 2 1 1 3 4 (by norm_num) (by norm_num)
+
+/-! ### path independence of histories -/
+
+theorem ObsEq.symm' {E : Ext α} {t : Cls} {o1 o2 : Obj α} (h : ObsEq E t o1 o2) : ObsEq E t o2 o1 :=
+  ⟨fun hs x y z => (h.density hs x y z).symm, h.geometry.symm, fun g => (h.getter g).symm,
+   fun hs g => (h.getterList hs g).symm, fun hs x => (h.evaluate hs x).symm⟩
+
+theorem ObsEq.trans' {E : Ext α} {t : Cls} {o1 o2 o3 : Obj α} (h : ObsEq E t o1 o2) (h' : ObsEq E t o2 o3) :
+    ObsEq E t o1 o3 :=
+  ⟨fun hs x y z => (h.density hs x y z).trans (h'.density hs x y z), h.geometry.trans h'.geometry,
+   fun g => (h.getter g).trans (h'.getter g), fun hs g => (h.getterList hs g).trans (h'.getterList hs g),
+   fun hs x => (h.evaluate hs x).trans (h'.evaluate hs x)⟩
+
+/-- **path independence**: two objects of a class whose table passes the checks, reached by ANY two accepted
+constructions followed by ANY two assignment histories (constructor arguments equal to defaults / pre-seeded literals,
+repeated values, rejected values all included), are observationally equal as soon as they report the same parameters —
+in particular "constructed with v" ≡ "constructed with w, then set to v". -/
+theorem history_path_independent (E : Ext α) (hc : 0 < E.c) (t : Cls) (hok : tableOkB t = true)
+    (args1 args2 : String → α) (ops1 ops2 : List (String × α))
+    (h1 : (runCtor E t args1).2 = .ok) (h2 : (runCtor E t args2).2 = .ok)
+    (hrep : reported t (runOps E t (runCtor E t args1).1 ops1) = reported t (runOps E t (runCtor E t args2).1 ops2)) :
+    ObsEq E t (runOps E t (runCtor E t args1).1 ops1) (runOps E t (runCtor E t args2).1 ops2) := by
+  have e1 := (history_eq_fresh_total E hc t hok args1 ops1 h1).2
+  have e2 := (history_eq_fresh_total E hc t hok args2 ops2 h2).2
+  rw [hrep] at e1
+  exact e1.trans' e2.symm'
+
+end Deepen
+
+/-! ### subscriptions: exactly one, on the profile currently held -/
+section Subscriptions
+
+/-- laser `l` is registered on profile `p` exactly once if it holds `p`, and not at all otherwise -/
+def SubInv (s : Scene) : Prop := ∀ l p, (s.subs p).count l = if s.cur l = some p then 1 else 0
+
+theorem subInv_empty : SubInv emptyScene := by
+  intro l p; simp [emptyScene]
+
+theorem count_notifierAdd (subs : List Nat) (l k : Nat) (h : subs.count l ≤ 1) :
+    (notifierAdd subs l).count k = if k = l then 1 else subs.count k := by
+  unfold notifierAdd
+  by_cases hm : l ∈ subs
+  · simp only [hm, if_true]
+    split
+    · rename_i hk; subst hk
+      have := List.count_pos_iff.mpr hm
+      omega
+    · rfl
+  · simp only [hm, if_false, List.count_append]
+    split
+    · rename_i hk; subst hk
+      simp [List.count_eq_zero_of_not_mem hm]
+    · rename_i hk
+      simp [List.count_cons, Ne.symm hk]
+
+theorem count_notifierRemove (subs : List Nat) (l k : Nat) :
+    (notifierRemove subs l).count k = if k = l then subs.count l - 1 else subs.count k := by
+  unfold notifierRemove
+  split
+  · rename_i hk; subst hk; simp [List.count_erase_self]
+  · rename_i hk; exact List.count_erase_of_ne hk
+
+/-- the subscriptions after the unsubscribe step of the setter -/
+def afterRemove (s : Scene) (l : Nat) : Nat → List Nat :=
+  match s.cur l with
+  | some q => fun x => if x = q then notifierRemove (s.subs q) l else s.subs x
+  | none => s.subs
+
+theorem count_afterRemove (s : Scene) (h : SubInv s) (l x k : Nat) :
+    (afterRemove s l x).count k = if k = l then 0 else (s.subs x).count k := by
+  unfold afterRemove
+  cases hc : s.cur l with
+  | none =>
+    simp only
+    split
+    · rename_i hk; subst hk; rw [h k x, hc]; simp
+    · rfl
+  | some q0 =>
+    simp only
+    by_cases hx : x = q0
+    · subst hx
+      simp only [if_true]
+      rw [count_notifierRemove]
+      split
+      · rw [h l x, hc]; simp
+      · rfl
+    · simp only [hx, if_false]
+      split
+      · rename_i hk; subst hk; rw [h k x, hc]
+        have : ¬ (some q0 = some x) := fun e => hx (Option.some.inj e).symm
+        simp [this]
+      · rfl
+
+theorem attach_eq (s : Scene) (l p : Nat) :
+    attach s l p = { subs := fun x => if x = p then notifierAdd (afterRemove s l p) l else afterRemove s l x,
+                     cur := fun k => if k = l then some p else s.cur k } := by
+  unfold attach afterRemove
+  cases s.cur l <;> rfl
+
+/-- one (re)assignment keeps the invariant — also when the same profile object is assigned again -/
+theorem attach_inv (s : Scene) (h : SubInv s) (l p : Nat) : SubInv (attach s l p) := by
+  intro k q
+  rw [attach_eq]
+  simp only
+  by_cases hq : q = p
+  · subst hq
+    simp only [if_true]
+    rw [count_notifierAdd _ _ _ (by rw [count_afterRemove s h]; simp)]
+    by_cases hkl : k = l
+    · simp [hkl]
+    · simp only [hkl, if_false]
+      rw [count_afterRemove s h]
+      simp only [hkl, if_false]
+      exact h k q
+  · simp only [hq, if_false]
+    rw [count_afterRemove s h]
+    by_cases hkl : k = l
+    · have : ¬ (some p = some q) := fun e => hq (Option.some.inj e).symm
+      simp [hkl, this]
+    · simp only [hkl, if_false]
+      exact h k q
+
+/-- **exactly one subscription after any history of (re)assignments**, on any number of lasers and profiles,
+shared profiles and re-assignment of the same profile included -/
+theorem attach_history_inv (ops : List (Nat × Nat)) (s : Scene) (h : SubInv s) : SubInv (attachAll s ops) := by
+  induction ops generalizing s with
+  | nil => exact h
+  | cons op rest ih => obtain ⟨l, p⟩ := op; exact ih _ (attach_inv s h l p)
+
+/-- so a change of the held profile always reaches the laser (and no other profile's notifier does) -/
+theorem notified_iff_holds (ops : List (Nat × Nat)) (l p : Nat) :
+    l ∈ (attachAll emptyScene ops).subs p ↔ (attachAll emptyScene ops).cur l = some p := by
+  have := attach_history_inv ops emptyScene subInv_empty l p
+  rw [← List.count_pos_iff, this]
+  split <;> simp_all
+
+-- non-vacuity, and the seeded ordering as a counter-example: re-assigning the same profile loses the subscription
+example : (attachAll emptyScene [(0, 5), (0, 5), (1, 5), (0, 7)]).subs 5 = [1] := by decide
+example : (attachSwapped (attach emptyScene 0 5) 0 5).subs 5 = [] := by decide
+example : (attach (attach emptyScene 0 5) 0 5).subs 5 = [0] := by decide
+
+end Subscriptions
+
 /-! ## non-vacuity: concrete instances over ℚ -/
 section Examples
 
